@@ -105,7 +105,7 @@ def pds_text(rng):
     return ''.join(parts)
 
 
-FAMILIES = ('byte_sweeps', 'length_rewrites', 'hex_bitmap_spellings', 'typed_content_words', 'truncations', 'extensions', 'multipoint')
+FAMILIES = ('byte_sweeps', 'length_rewrites', 'hex_bitmap_spellings', 'typed_content_words', 'icc_tails', 'truncations', 'extensions', 'multipoint')
 
 
 def family_iter(ctx, name, data, L, enc, k):
@@ -117,6 +117,8 @@ def family_iter(ctx, name, data, L, enc, k):
         return mutate.truncations(data)
     if name == 'hex_bitmap_spellings':
         return mutate.hex_bitmap_spellings(data, len(L.bitmap) == 32)
+    if name == 'icc_tails':
+        return mutate.icc_tails(data, L, msgwork.cfg_of(base(ctx, k)[0]), enc)
     if name == 'typed_content_words':
         return mutate.typed_content_words(data, L, msgwork.cfg_of(base(ctx, k)[0]), enc)
     if name == 'extensions':
@@ -151,6 +153,11 @@ def cases(ctx):
         i += 1
         if ctx.mine(i):
             yield {'kind': 'scaling', 'fmt': fmt}
+    for enc in ('latin_1', 'cp500'):
+        for blocked in (False, True):
+            i += 1
+            if ctx.mine(i):
+                yield {'kind': 'valid_but_awkward', 'enc': enc, 'blocked': blocked}
 
 
 def lib_error(ctx, which):
@@ -251,6 +258,8 @@ def judge(ctx, case):
         return judge_process(ctx, case)
     if kind == 'scaling':
         return judge_scaling(ctx, case)
+    if kind == 'valid_but_awkward':
+        return judge_awkward(ctx, case)
     if kind == 'onefile':
         fdata, enc, blocked = unhx(case['data']), case['enc'], case['blocked']
         for which in ('VbsReader', 'IpmReader'):
@@ -386,6 +395,28 @@ def judge_scaling(ctx, case):
                       {'case': case, 'cpu_s_1MB': round(times['1MB'], 3), 'cpu_s_8MB': round(times['8MB'], 3), 'ratio': round(ratio, 1)})
 
 
+def judge_awkward(ctx, case):
+    """
+    Well-formed records that are awkward to re-encode: five full PDS carriers whose sub-elements, once sorted by tag, no
+    longer fit five carriers; PDS tags that are not numeric.  Every tool must still end with a return value.
+    """
+    cfg = msgwork.cfg_of('packaged')
+    enc, blocked = case['enc'], case['blocked']
+    car = ref.carriers_of(cfg)
+    full = {'MTI': '1240', 'DE2': '5' * 16}
+    for j, b in enumerate(car):
+        full['DE%d' % b] = '%04d%03d%s' % (1 + j, 592, 'A' * 592) + '%04d%03d%s' % (101 + j, 393, 'B' * 393)
+    odd = {'MTI': '1240', 'DE2': '4' * 16, 'DE48': '00A1003xyzZZ99000'}
+    plain = {'MTI': '1240', 'DE2': '4' * 16, 'DE48': '0023003abc'}
+    for name, msgs in (('carriers_full_after_sorting', [plain, full, plain]), ('non_numeric_pds_tag', [plain, odd])):
+        stream = refb.vbs([ref.encode(x, cfg, enc) for x in msgs])
+        fdata = refb.block(stream) if blocked else stream
+        before = dict(ctx.violations)
+        run_tools(ctx, fdata, enc, blocked, 'valid_but_awkward:' + name)
+        ctx.count('valid but awkward files run through the tools: ' + name)
+    ctx.case_done(['awkward', enc, blocked])
+
+
 def judge_process(ctx, case):
     """The real command-line entry points in their own interpreter: exit status and stderr must show no traceback."""
     import subprocess
@@ -512,6 +543,8 @@ def require(m):
         reasons.append('tools never run')
     if not c.get('command-line processes run: mci_ipm_to_csv') or not c.get('command-line processes run: mideu extract'):
         reasons.append('command-line processes never run')
+    if not c.get('valid but awkward files run through the tools: carriers_full_after_sorting'):
+        reasons.append('awkward-but-valid files never run through the tools')
     if not c.get('scaling measurements'):
         reasons.append('scaling never measured')
     if not c.get('IpmReader file iterations'):
